@@ -55,9 +55,9 @@ def nsReadOut (g aux : G) : G :=
 /-- `phase4.execNetworkSimplex` -/
 def execNsPositioner (thoroughness : Nat) (weightFactor : Int) (ns : Rat) (g : G) : M G := do
   let aux := auxiliaryGraph weightFactor ns g
+  -- `phase2.NetworkSimplex.AssignLayers`: the layers only; no layer list of the auxiliary graph is built (repaired code: it had one
+  -- entry per unit of x, so time and memory grew with the node widths)
   let (aux, _, _) ← execNetworkSimplex thoroughness g.nodes.size 2 aux
-  -- phase2.Process then builds the layer list of the auxiliary graph: a negative layer would panic there
-  let _ ← buildLayers aux
   pure (nsReadOut g aux)
 
 end Autog
